@@ -6,7 +6,7 @@ import PqModel.Props.C12
 
 MIRRORS: `chunkView` (`ConvertRowGroup` + `convertedColumnChunk` + `missingColumnChunk` +
 `findAdjacentColumnChunk`, convert.go:562-981), `carrySorting` (convert.go:677-683), `Fwd.read`
-(`forwardRowSeeker.ReadRows`, row.go:256-276), `convRead`/`drain` (`convertedRows.ReadRows` under a
+(`forwardRowSeeker.ReadRows`, row.go:256-281), `convRead`/`drain` (`convertedRows.ReadRows` under a
 batching consumer such as `CopyRows`). `rowView` is the row path proved in `convert_shred`. -/
 namespace PqModel.Props.C12Chunks
 open PqModel.Dremel PqModel.Convert
@@ -142,26 +142,41 @@ theorem copy_rows_count_order {α β : Type} (f : α → β) (caps : List Nat) (
   simp only []
   rw [List.take_of_length_le hl]
 
-/-- finding: `SeekToRow` to a row INSIDE the next batch panics (the copy loop never advances `j`) -/
-theorem forward_seek_inside_batch_panics :
-    (Fwd.read 4 10 ({ rest := List.range 10, seek := 3, index := 0 } : Fwd Nat)).1 = .panic := by decide
+/-- regression fact (before the repair c3e3444): `SeekToRow` to a row INSIDE the next batch
+    panicked (the copy loop never advanced `j`) -/
+theorem forward_seek_inside_batch_panics_before_fix :
+    (Fwd.readBeforeFix 4 10 ({ rest := List.range 10, seek := 3, index := 0 } : Fwd Nat)).1 = .panic := by decide
 
-/-- finding: `index` is not advanced by plain reads, so a seek after reading is taken relative to
-    the start: after one batch of 4, `SeekToRow 8` continues at row 12 -/
-theorem forward_seek_after_read_skips_too_far :
-    (Fwd.read 4 10 ({ rest := (List.range 20).drop 4, seek := 8, index := 0 } : Fwd Nat)).1 = .rows [12, 13, 14, 15] := by
+/-- regression fact (before the repair): `index` was not advanced by plain reads, so a seek after
+    reading was taken relative to the start: after one batch of 4, `SeekToRow 8` continued at row 12 -/
+theorem forward_seek_after_read_skips_too_far_before_fix :
+    (Fwd.readBeforeFix 4 10 ({ rest := (List.range 20).drop 4, seek := 8, index := 0 } : Fwd Nat)).1 = .rows [12, 13, 14, 15] := by
   decide
 
-/-- the proposed repair (`j` advances, `index` counts every row handed out): a read returns the
-    stream from the sought row on — batch plus remainder is `rest.drop (seek - index)` — and after
-    a non-empty batch no seek is pending -/
+/-- the code as it stands (`Fwd.read`): a read returns the stream from the sought row on — batch
+    plus remainder is `rest.drop (seek - index)` — and after a non-empty batch no seek is pending -/
 theorem forward_seek_repaired {α : Type} (cap : Nat) (hcap : 0 < cap) (st : Fwd α) :
-    ∃ xs st', Fwd.readFixed cap (st.rest.length + 1) st = (.rows xs, st') ∧
+    ∃ xs st', Fwd.read cap (st.rest.length + 1) st = (.rows xs, st') ∧
       xs ++ st'.rest = st.rest.drop (st.seek - st.index) ∧ (xs ≠ [] → st'.seek ≤ st'.index) := by
-  obtain ⟨xs, st', h1, h2, h3, _⟩ := readFixed_spec cap hcap (st.rest.length + 1) st (Nat.lt_succ_self _)
+  obtain ⟨xs, st', h1, h2, h3, _⟩ := read_spec cap hcap (st.rest.length + 1) st (Nat.lt_succ_self _)
   exact ⟨xs, st', h1, h2, h3⟩
 
-example : (Fwd.readFixed 4 30 ({ rest := (List.range 20).drop 4, seek := 8, index := 4 } : Fwd Nat)).1 = .rows [8, 9, 10, 11] := by
+example : (Fwd.read 4 30 ({ rest := (List.range 20).drop 4, seek := 8, index := 4 } : Fwd Nat)).1 = .rows [8, 9, 10, 11] := by
   decide
+
+/-- Every history of `ReadRows(cap)` (cap > 0) and `SeekToRow(k)` calls on a fresh
+    `ConvertRowReader` over the rows `all` refines the specification of a forward-seekable reader:
+    each read delivers the source rows from the current position in order (possibly fewer than
+    asked for, none only when the source is exhausted), `SeekToRow(k)` with `k` at or behind the
+    position makes row `k` the next one. No row is lost, repeated or reordered. -/
+theorem forward_history_refines {α : Type} (all : List α) (ops : List Op)
+    (hcaps : ∀ cap, Op.read cap ∈ ops → 0 < cap) :
+    Refines all 0 ops (runHist ops { rest := all, seek := 0, index := 0 }) :=
+  hist_refines all ops { rest := all, seek := 0, index := 0 } 0 hcaps rfl rfl
+
+/-- non-vacuity: read 4, seek to 8, read 4, read 3 over rows 0..19 delivers 0-3, 8-11, 12-14 -/
+example :
+    runHist [.read 4, .seek 8, .read 4, .read 3] ({ rest := List.range 20, seek := 0, index := 0 } : Fwd Nat) =
+      [[0, 1, 2, 3], [8, 9, 10, 11], [12, 13, 14]] := by decide
 
 end PqModel.Props.C12Chunks
